@@ -1035,6 +1035,47 @@ func (fr *Frame) lookupLocal(name string, at *ssa.BasicBlock, phiOverride map[*s
 			}
 		}
 	}
+	if name == "elem" && at != nil {
+		// the element of the ranged slice at position index-1 (the one the iteration just completed has processed),
+		// whatever expression the loop ranges over - robust against inlining or renaming of that expression
+		for _, ins := range at.Instrs {
+			phi, ok := ins.(*ssa.Phi)
+			if !ok {
+				break
+			}
+			if phi.Comment != "rangeindex" {
+				continue
+			}
+			for _, r := range *phi.Referrers() {
+				inc, ok := r.(*ssa.BinOp)
+				if !ok {
+					continue
+				}
+				for _, r2 := range *inc.Referrers() {
+					ia, ok := r2.(*ssa.IndexAddr)
+					if !ok || ia.Index != ssa.Value(inc) {
+						continue
+					}
+					sl, ok := ia.X.Type().Underlying().(*types.Slice)
+					if !ok {
+						continue
+					}
+					if _, known := fr.vals[ia.X]; !known {
+						continue
+					}
+					var idx Term
+					if t, ok := phiOverride[phi]; ok {
+						idx = t
+					} else {
+						idx = fr.val(phi)
+					}
+					heap, es := fr.c.elemHeap(sl.Elem())
+					return TV{fr.c.sliceElem(x.st, heap, es, fr.val(ia.X), idx), sl.Elem()}, true
+				}
+			}
+		}
+		return TV{}, false
+	}
 	if name == "outerindex" && at != nil {
 		// index of the iteration in progress of the innermost enclosing slice range loop
 		var outer *ssa.BasicBlock
